@@ -56,12 +56,23 @@ class OrtWorker:
                     pass
 
     def run(self, model_bytes: bytes, feeds: dict) -> list:
+        return self.request(("run", model_bytes, feeds))
+
+    def full_check(self, model_bytes: bytes) -> None:
+        """onnx.checker.check_model(full_check=True) in the child (its shape inference can crash natively)."""
+        self.request(("check", model_bytes, None))
+
+    def convert(self, model_bytes: bytes, target: int) -> bytes:
+        """onnx.version_converter.convert_version in the child (the converter fails native assertions)."""
+        return self.request(("convert", model_bytes, target))
+
+    def request(self, req):
         if self.proc is None or self.proc.poll() is not None:
             self.start()
         self.calls += 1
         p = self.proc
         try:
-            b = pickle.dumps((model_bytes, feeds), protocol=pickle.HIGHEST_PROTOCOL)
+            b = pickle.dumps(req, protocol=pickle.HIGHEST_PROTOCOL)
             p.stdin.write(struct.pack("<I", len(b)) + b)
             p.stdin.flush()
             hdr = p.stdout.read(4)
@@ -79,12 +90,16 @@ class OrtWorker:
                 p.kill()
             self.proc = None
             self.crashes += 1
-            raise RuntimeAborted(f"the onnxruntime process died while loading / running the model (exit status {rc})") from None
+            raise RuntimeAborted(f"the onnx / onnxruntime process died on request '{req[0]}' (exit status {rc})") from None
         res = pickle.loads(body)
         if res[0] == "ok":
             self.fallbacks += int(res[2])
             return res[1]
         raise remote_exception(res[1], res[2])
+
+
+class _Done(Exception):
+    pass
 
 
 def main():
@@ -109,9 +124,17 @@ def main():
         if len(hdr) < 4:
             break
         n = struct.unpack("<I", hdr)[0]
-        model_bytes, feeds = pickle.loads(inp.read(n))
+        kind, model_bytes, feeds = pickle.loads(inp.read(n))
         try:
             fallback = False
+            if kind == "check":
+                onnx.checker.check_model(onnx.load_from_string(model_bytes), full_check=True)
+                raise _Done(("ok", None, False))
+            if kind == "convert":
+                import onnx.version_converter
+
+                conv = onnx.version_converter.convert_version(onnx.load_from_string(model_bytes), feeds)
+                raise _Done(("ok", conv.SerializeToString(), False))
             try:
                 sess = ort.InferenceSession(model_bytes, so, providers=["CPUExecutionProvider"])
             except Exception as e:  # noqa: BLE001
@@ -123,6 +146,8 @@ def main():
                 sess = ort.InferenceSession(model_bytes, so_plain, providers=["CPUExecutionProvider"])
                 fallback = True
             res = ("ok", sess.run(None, feeds), fallback)
+        except _Done as d:
+            res = d.args[0]
         except Exception as e:  # noqa: BLE001
             res = ("err", type(e).__name__, str(e))
         b = pickle.dumps(res, protocol=pickle.HIGHEST_PROTOCOL)
